@@ -458,4 +458,220 @@ theorem avg_refines (e : Expr) (vs : List Value) (r : Value) (h : aggregate (.av
             · simp at h
           | none => simp [hi, hr, hn] at h
 
+/-! ### STDDEV / VARIANCE -/
+
+/-- squares and the published value for an argument type STDDEV accepts (INT, REAL) -/
+structure SqLike {α : Type} (inj : α → Value) (sq : α → α) (okSq : α → Bool) (toF : α → Nat) : Prop where
+  square : ∀ y, squareOf (inj y) = if okSq y then .ok (inj (sq y)) else .error .undefinedOperation
+  value : ∀ s q c isVar, stddevValue (inj s) (inj q) c isVar = some (.real (stddevCalc c isVar (toF s) (toF q)))
+
+theorem sqLike_int : SqLike Value.int (fun x => x * x) (fun x => inI64 (x * x)) F64.ofInt where
+  square := by
+    intro y
+    simp only [squareOf, checked]
+    by_cases h : inI64 (y * y) = true <;> simp [h]
+  value := fun _ _ _ _ => rfl
+
+theorem sqLike_real : SqLike Value.real (fun x => F64.mul x x) (fun _ => true) id where
+  square := fun y => by simp [squareOf]
+  value := fun _ _ _ _ => rfl
+
+theorem aggUpdate_stddev (s q v : Value) (c : Int) (isVar : Bool) :
+    aggUpdate (.stddev s q c isVar) v = (squareOf v).bind (fun sqv => (addToSum s v).bind (fun s' =>
+      (addToSum q sqv).bind (fun q' => .ok (.stddev s' q' (c + 1) isVar, stddevValue s' q' (c + 1) isVar)))) := rfl
+
+def sdCell (s q : Value) (n : Int) (isVar : Bool) (x : Option Value) : Cell :=
+  { agg := some (.stddev s q n isVar), val := x }
+
+def sdShow {α : Type} (toF : α → Nat) (isVar : Bool) (s q : α) (n : Int) : Value :=
+  .real (stddevCalc n isVar (toF s) (toF q))
+
+def sdLast {α : Type} (plus : α → α → α) (sq : α → α) (toF : α → Nat) (isVar : Bool) (x : Option Value) (s q : α) (n : Int) :
+    List α → Option Value
+  | [] => x
+  | y :: ys => some (sdShow toF isVar ((y :: ys).foldl plus s) (((y :: ys).map sq).foldl plus q) (n + ((y :: ys).length : Nat)))
+
+theorem foldV_sd_num {α : Type} {inj : α → Value} {plus : α → α → α} {okp : α → Bool} {zero : α}
+    {sq : α → α} {okSq : α → Bool} {toF : α → Nat}
+    (N : NumLike inj plus okp zero) (S : SqLike inj sq okSq toF)
+    (e : Expr) (isVar : Bool) (vs : List Value) (s q : α) (n : Int) (x : Option Value) (ys : List α)
+    (hys : nonNull vs = ys.map inj) (hsq : ys.all okSq = true) (hok : psOk plus okp s ys = true)
+    (hokq : psOk plus okp q (ys.map sq) = true) :
+    foldV (.stddev e isVar) vs (sdCell (inj s) (inj q) n isVar x) =
+      .ok (sdCell (inj (ys.foldl plus s)) (inj ((ys.map sq).foldl plus q)) (n + (ys.length : Nat)) isVar
+        (sdLast plus sq toF isVar x s q n ys)) := by
+  induction vs generalizing s q n x ys with
+  | nil =>
+    simp [nonNull] at hys; cases ys <;> simp at hys
+    simp [foldV, sdLast]
+  | cons v vs ih =>
+    cases hv : v.isNull
+    · rw [nonNull_cons_of_not_null hv] at hys
+      obtain ⟨y, ys', rfl, rfl, hys'⟩ := map_cons_inv hys
+      simp only [psOk, Bool.and_eq_true, List.map_cons] at hok hokq
+      simp only [List.all_cons, Bool.and_eq_true] at hsq
+      simp only [foldV, stepV, sdCell, Option.getD, hv, Bool.not_false, if_true, aggUpdate_stddev, S.square, hsq.1, N.add, hok.1,
+        hokq.1, bind, Outcome.bind, pure, S.value]
+      have := ih (plus s y) (plus q (sq y)) (n + 1) (some (sdShow toF isVar (plus s y) (plus q (sq y)) (n + 1))) ys' hys' hsq.2
+        hok.2 hokq.2
+      simp only [sdCell, sdShow] at this
+      rw [this]
+      have hlen : n + 1 + ((ys'.length : Nat) : Int) = n + (((y :: ys').length : Nat) : Int) := by
+        simp only [List.length_cons]; omega
+      simp only [List.foldl_cons, List.map_cons, hlen]
+      cases ys' with
+      | nil => simp [sdLast, sdShow]
+      | cons y2 ys2 => simp only [sdLast, sdShow, List.foldl_cons, List.map_cons, hlen]
+    · have := isNull_eq_true hv; subst this
+      rw [nonNull_cons_null] at hys
+      simp only [foldV, stepV, sdCell, Option.getD, isNull_null, Bool.not_true, Bool.false_eq_true, if_false, aggIsNull,
+        N.notNull, Bool.or_self, Outcome.bind]
+      exact ih s q n x ys hys hsq hok hokq
+
+/-- the value shown after a NULL start -/
+def sdNullVal {α : Type} (plus : α → α → α) (sq : α → α) (toF : α → Nat) (isVar : Bool) : List α → Value
+  | [] => .null
+  | y :: ys' => sdShow toF isVar (ys'.foldl plus y) ((ys'.map sq).foldl plus (sq y)) ((y :: ys').length : Nat)
+
+theorem foldV_sd_null {α : Type} {inj : α → Value} {plus : α → α → α} {okp : α → Bool} {zero : α}
+    {sq : α → α} {okSq : α → Bool} {toF : α → Nat}
+    (N : NumLike inj plus okp zero) (S : SqLike inj sq okSq toF)
+    (e : Expr) (isVar : Bool) (vs : List Value) (ys : List α)
+    (hys : nonNull vs = ys.map inj) (hsq : ys.all okSq = true)
+    (hok : ∀ y ys', ys = y :: ys' → psOk plus okp y ys' = true ∧ psOk plus okp (sq y) (ys'.map sq) = true) :
+    foldV (.stddev e isVar) vs (sdCell .null .null 0 isVar (some .null)) =
+      .ok (sdCell (sumFromNull inj plus ys) (sumFromNull inj plus (ys.map sq)) (ys.length : Nat) isVar
+        (some (sdNullVal plus sq toF isVar ys))) := by
+  induction vs generalizing ys with
+  | nil =>
+    simp [nonNull] at hys; cases ys <;> simp at hys
+    rfl
+  | cons v vs ih =>
+    cases hv : v.isNull
+    · rw [nonNull_cons_of_not_null hv] at hys
+      obtain ⟨y, ys', rfl, rfl, hys'⟩ := map_cons_inv hys
+      simp only [List.all_cons, Bool.and_eq_true] at hsq
+      simp only [foldV, stepV, sdCell, Option.getD, hv, Bool.not_false, if_true, aggUpdate_stddev, S.square, hsq.1, N.addNull,
+        bind, Outcome.bind, pure, S.value]
+      have := foldV_sd_num N S e isVar vs y (sq y) (0 + 1) (some (sdShow toF isVar y (sq y) (0 + 1))) ys' hys' hsq.2
+        (hok y ys' rfl).1 (hok y ys' rfl).2
+      simp only [sdCell, sdShow] at this
+      rw [this]
+      have hlen : (0 : Int) + 1 + ((ys'.length : Nat) : Int) = (((y :: ys').length : Nat) : Int) := by
+        simp only [List.length_cons]; omega
+      simp only [sdCell, sdNullVal, sdShow, hlen, sumFromNull, List.map_cons]
+      cases ys' with
+      | nil => simp [sdLast, sdShow]
+      | cons y2 ys2 => simp only [sdLast, sdShow, hlen]
+    · have := isNull_eq_true hv; subst this
+      rw [nonNull_cons_null] at hys
+      simp only [foldV, stepV, sdCell, Option.getD, isNull_null, Bool.not_true, Bool.false_eq_true, if_false, aggIsNull,
+        Bool.or_self, Outcome.bind, if_true]
+      exact ih ys hys hsq hok
+
+theorem foldV_sd_init (e : Expr) (isVar : Bool) (v : Value) (vs : List Value) :
+    foldV (.stddev e isVar) (v :: vs) {} =
+      foldV (.stddev e isVar) (v :: vs) (sdCell (defaultOf v) (defaultOf v) 0 isVar none) := by
+  simp only [foldV, stepV, sdCell, Option.getD, defaultAggregator]
+  rfl
+
+/-- the specification's STDDEV / VARIANCE of a list of one numeric type -/
+def sdResult {α : Type} (plus : α → α → α) (zero : α) (sq : α → α) (toF : α → Nat) (isVar : Bool) : List α → Value
+  | [] => .null
+  | y :: ys' => sdShow toF isVar ((y :: ys').foldl plus zero) (((y :: ys').map sq).foldl plus zero) ((y :: ys').length : Nat)
+
+theorem sd_num_cell {α : Type} {inj : α → Value} {plus : α → α → α} {okp : α → Bool} {zero : α}
+    {sq : α → α} {okSq : α → Bool} {toF : α → Nat}
+    (N : NumLike inj plus okp zero) (S : SqLike inj sq okSq toF)
+    (e : Expr) (isVar : Bool) (v : Value) (vs : List Value) (ys : List α)
+    (hys : nonNull (v :: vs) = ys.map inj) (hsq : ys.all okSq = true)
+    (hok : psOk plus okp zero ys = true) (hokq : psOk plus okp zero (ys.map sq) = true)
+    (hz : ∀ y ys', ys = y :: ys' → plus zero y = y ∧ plus zero (sq y) = sq y) :
+    ∃ s q n, foldV (.stddev e isVar) (v :: vs) {} = .ok (sdCell s q n isVar (some (sdResult plus zero sq toF isVar ys))) := by
+  rw [foldV_sd_init]
+  cases hv : v.isNull
+  · have hys' := hys
+    rw [nonNull_cons_of_not_null hv] at hys'
+    obtain ⟨y, ys', rfl, rfl, _⟩ := map_cons_inv hys'
+    rw [N.dflt, foldV_sd_num N S e isVar _ zero zero 0 none _ hys hsq hok hokq]
+    simp only [sdLast, sdResult, Int.zero_add]
+    exact ⟨_, _, _, rfl⟩
+  · have := isNull_eq_true hv; subst this
+    have h1 : foldV (.stddev e isVar) (Value.null :: vs) (sdCell (defaultOf .null) (defaultOf .null) 0 isVar none) =
+        foldV (.stddev e isVar) vs (sdCell .null .null 0 isVar (some .null)) := by
+      simp only [foldV, stepV, sdCell, Option.getD, defaultOf, isNull_null, Bool.not_true, Bool.false_eq_true, if_false,
+        aggIsNull, Bool.or_self, if_true, Outcome.bind]
+    rw [h1]
+    have hf := foldV_sd_null N S e isVar vs ys (by rw [nonNull_cons_null] at hys; exact hys) hsq (by
+      intro y ys' he
+      subst he
+      simp only [psOk, Bool.and_eq_true, List.map_cons, (hz y ys' rfl).1, (hz y ys' rfl).2] at hok hokq
+      exact ⟨hok.2, hokq.2⟩)
+    rw [hf]
+    have : sdNullVal plus sq toF isVar ys = sdResult plus zero sq toF isVar ys := by
+      cases ys with
+      | nil => rfl
+      | cons y ys' => simp only [sdNullVal, sdResult, List.foldl_cons, List.map_cons, (hz y ys' rfl).1, (hz y ys' rfl).2]
+    rw [this]
+    exact ⟨_, _, _, rfl⟩
+
+/-- STDDEV / VARIANCE: from Σx, Σx² and n over the non-NULL arguments (NULL if there are none) -/
+theorem stddev_refines (e : Expr) (isVar : Bool) (vs : List Value) (r : Value) (h : aggregate (.stddev e isVar) vs = some r) :
+    ∃ c, foldV (.stddev e isVar) vs {} = .ok c ∧ shownValue (.stddev e isVar) c = r ∧
+      (published c).isSome = createsEntry (.stddev e isVar) vs := by
+  cases vs with
+  | nil =>
+    simp [aggregate, nonNull, stddevOf] at h
+    exact ⟨{}, rfl, by simp [shownValue, published, emptyGroupValue, h], rfl⟩
+  | cons v vs =>
+    suffices hs : ∃ s q n, foldV (.stddev e isVar) (v :: vs) {} = .ok (sdCell s q n isVar (some r)) by
+      obtain ⟨s, q, n, hs⟩ := hs
+      exact ⟨_, hs, rfl, rfl⟩
+    simp only [aggregate] at h
+    cases hx : nonNull (v :: vs) with
+    | nil =>
+      simp only [hx, stddevOf, Option.some.injEq] at h
+      subst h
+      exact sd_num_cell numLike_int sqLike_int e isVar v vs [] (by simpa using hx) rfl rfl rfl (by simp)
+    | cons x xs =>
+      simp only [hx, stddevOf] at h
+      cases hi : ints (x :: xs) with
+      | some is =>
+        simp only [hi] at h
+        split at h
+        · simp only [Option.some.injEq] at h
+          subst h
+          rename_i hok
+          simp only [Bool.and_eq_true] at hok
+          have hm := ints_eq hi
+          cases is with
+          | nil => simp at hm
+          | cons i is' =>
+            exact sd_num_cell numLike_int sqLike_int e isVar v vs (i :: is') (by rw [hx]; exact hm)
+              (by simpa [List.all_map] using hok.1.1) (by rw [psOk_int]; exact hok.1.2) (by rw [psOk_int]; exact hok.2)
+              (by intro y ys' _; exact ⟨Int.zero_add y, Int.zero_add _⟩)
+        · simp at h
+      | none =>
+        cases hr : reals (x :: xs) with
+        | some rs =>
+          simp only [hi, hr] at h
+          split at h
+          · simp only [Option.some.injEq] at h
+            subst h
+            rename_i hzn
+            simp only [Bool.and_eq_true] at hzn
+            have hm := reals_eq hr
+            cases rs with
+            | nil => simp at hm
+            | cons y rs' =>
+              exact sd_num_cell numLike_real sqLike_real e isVar v vs (y :: rs') (by rw [hx]; exact hm)
+                (by simp) (psOk_true _ _ _) (psOk_true _ _ _)
+                (by
+                  intro y' ys' he
+                  simp only [List.cons.injEq] at he
+                  rw [← he.1]
+                  exact ⟨zeroNeutral_cons hzn.1, zeroNeutral_cons (ys := rs'.map (fun x => F64.mul x x)) hzn.2⟩)
+          · simp at h
+        | none => simp [hi, hr] at h
+
 end Sqlgrep
